@@ -280,6 +280,7 @@ func (c *Ctx) exec(st *State, s ast.Stmt, k konts) {
 		ch := c.eval(st, x.Chan)
 		v := c.evalAs(st, x.Value, elemType(ch.GT))
 		c.ghostSend(st, ch, v)
+		c.pointClauses(st, "after send "+types.ExprString(x.Chan), x.End())
 		k.next(st)
 	default:
 		c.abort("unsupported statement %T at %s", s, c.pos(s))
